@@ -54,7 +54,7 @@ PROPS["C04"] = dict(
     technique="contract-based deductive verification (Verus): recursive closed-forest predicate as part of the frame law of every ParserState operation; precondition of pairs::new discharged in state()",
     level_text="Part (a), emission: proved for all call trees of lawful closures that the tokens appended by any operation form a closed forest (balanced, properly nested, positions non-decreasing, on UTF-8 boundaries, within the text walked), hence every successful parse hands pairs::new a well-formed stream. Part (b), views: see the pairs unit.",
     level_note="As C03. Display/Debug/JSON/concat views build strings through format!/serde and are outside the Verus subset.",
-    assumptions=CORE_ASSUME, not_covered=CORE_NOT_COVERED + ["Pairs/Pair/FlatPairs/Tokens views: pairs unit (in progress)", "Display, Debug, to_json, concat: format!/serde, not covered"],
+    assumptions=CORE_ASSUME, not_covered=CORE_NOT_COVERED + ["Display, Debug, to_json, concat: format!/serde, not covered"],
 )
 PROPS["C08"] = dict(
     title="Failure reports point at the furthest failure with sound expectations",
@@ -89,7 +89,7 @@ PROPS["C15"] = dict(
 
 PROPS["C10"] = dict(
     title="Line/column arithmetic and error rendering are correct for all text",
-    verus_units=[("lines", {}, "")],
+    verus_units=[("lines", {}, ""), ("pairs", {}, "")],
     kani=[], searcher=None,
     design_ref="DESIGN.md section 5, C10",
     technique="contract-based deductive verification (Verus) of the index arithmetic over vstd's UTF-8 theory; bounded Kani harnesses (planned) for the iterator-chain functions",
